@@ -153,10 +153,13 @@ def make_loop_class():
 class Env:
     """One real TunnelCommunity (MockIPv8) reused for all cases of a run."""
 
-    def __init__(self):
+    def __init__(self, community="base"):
         import vclock
         from ipv8.messaging.anonymization import tunnel as T
         from ipv8.messaging.anonymization.community import TunnelCommunity, TunnelSettings
+        if community == "hidden":
+            from ipv8.messaging.anonymization.hidden_services import HiddenTunnelCommunity as TunnelCommunity  # noqa: N814
+        self.community = community
         from ipv8.test.mocking.endpoint import AutoMockEndpoint
         from ipv8.test.mocking.ipv8 import MockIPv8
         logging.disable(logging.CRITICAL)
@@ -171,7 +174,11 @@ class Env:
         self.log, self.gates, self.dns = [], [], []
 
         async def mk():
-            s = TunnelSettings()
+            if community == "hidden":
+                from ipv8.messaging.anonymization.hidden_services import HiddenTunnelSettings
+                s = HiddenTunnelSettings()
+            else:
+                s = TunnelSettings()
             s.min_circuits = 0
             s.max_circuits = 0
             s.remove_tunnel_delay = 0
@@ -187,7 +194,15 @@ class Env:
         # The REAL on_packet_from_circuit runs (re-dispatch of own-overlay payloads by data[22] through decode_map_private).
         # on_data stays the real handler of DataPayload; every other registered cell handler is replaced by a recorder, so
         # that we see WHICH handler would run with WHICH source address without executing circuit management.
-        self.circuit_cell_ids = set(self.ov.decode_map_private)      # what TunnelCommunity.__init__ registered itself
+        # messages that only ever make sense as a cell from the circuit's neighbour (circuit management and the
+        # hidden-services cell-only messages), by payload class NAME - a fixed reading of the protocol, not today's
+        # registration table: such a handler must never run with a source address taken from a DATA payload
+        from ipv8.messaging.anonymization import payload as P
+        self.circuit_cell_ids = {getattr(P, n).msg_id for n in (
+            "DataPayload", "CreatePayload", "CreatedPayload", "ExtendPayload", "ExtendedPayload", "PingPayload", "PongPayload",
+            "DestroyPayload", "TestRequestPayload", "TestResponsePayload", "EstablishIntroPayload", "IntroEstablishedPayload",
+            "EstablishRendezvousPayload", "RendezvousEstablishedPayload", "LinkE2EPayload", "LinkedE2EPayload") if hasattr(P, n)}
+        self.declared_exit_ids = sorted(self.ov.exit_msg_ids) if hasattr(self.ov, "exit_msg_ids") else []
         for mid in list(self.ov.decode_map_private):
             if mid != DataPayload.msg_id:
                 self.ov.decode_map_private[mid] = (lambda src, data, cid, m=mid: self.log.append(("handler", m, src, cid)))
@@ -202,6 +217,7 @@ class Env:
         self.ov.on_raw_data = lambda circuit, origin, data: self.log.append(("loc", circuit.circuit_id, 2))
         self._peers = {}
         self.added_peers = []
+        self.creator_key = {}
         from ipv8.messaging.anonymization.endpoint import TunnelEndpoint
         self.plain_ep = self.ov.endpoint
         self.sent = []          # what the node sends on its tunnel socket (CREATED replies): recorded, never delivered
@@ -220,22 +236,46 @@ class Env:
     def set_flags(self, flags):
         self.ov.settings.peer_flags = set(flags)
 
-    def join(self, cid, ip, port, known=None):
-        """create the exit socket the way the code does: the REAL join_circuit for a CREATE that came from (ip, port).
-        `known`: addresses under which the creator's public key is already a verified peer of this node's Network
-        (None = unknown key).  Key material is random; it only serves as an identity and is never compared or recorded."""
+    async def join(self, cid, ip, port, known=None):
+        """create the exit socket the way the code does: the REAL on_create (guards, should_join_circuit, join_circuit) for a
+        CREATE cell that came from (ip, port).  `known`: addresses under which the creator's public key is already a
+        verified peer of this node's Network (None = unknown key).  Key material is random; it only serves as an identity
+        and is never compared or recorded."""
         from ipv8.messaging.anonymization.payload import CreatePayload
         from ipv8.messaging.interfaces.udp.endpoint import UDPv4Address, UDPv6Address
         from ipv8.peer import Peer
         pk = self.ov.crypto.generate_key("curve25519").pub().key_to_bin()
+        self.creator_key[cid] = pk
         for kip, kport in known or []:
             kp = Peer(pk, (UDPv6Address if ":" in kip else UDPv4Address)(kip, kport))
             self.node.network.add_verified_peer(kp)
             self.added_peers.append(kp)
         _, dh_first_part = self.ov.crypto.generate_diffie_secret()
         src = (UDPv6Address if ":" in ip else UDPv4Address)(ip, port)
-        self.ov.join_circuit(CreatePayload(cid, 1, pk, dh_first_part), src)
-        return self.ov.exit_sockets.get(cid)
+        cell = self.pfx + bytes([CreatePayload.msg_id]) + self.ov.serializer.pack_serializable(CreatePayload(cid, 1, pk, dh_first_part))
+        before = self.ov.exit_sockets.get(cid)
+        await self.ov.on_create(src, cell, None)
+        es = self.ov.exit_sockets.get(cid)
+        return es if es is not before else None
+
+    def peer_moves(self, cid, ip, port):
+        """what lazy_wrapper does when a signed message of the creator's key arrives from (ip, port): the Network's Peer object
+        for that key (if any, else a new one that is then added) learns the address"""
+        from ipv8.messaging.interfaces.udp.endpoint import UDPv4Address, UDPv6Address
+        from ipv8.peer import Peer
+        pk = self.creator_key.get(cid)
+        if pk is None:
+            return "no-such-circuit"
+        addr = (UDPv6Address if ":" in ip else UDPv4Address)(ip, port)
+        p = self.node.network.get_verified_by_public_key_bin(pk)
+        kind = "network-peer-updated"
+        if p is None:
+            p = Peer(pk, addr)
+            self.node.network.add_verified_peer(p)
+            self.added_peers.append(p)
+            kind = "network-peer-added"
+        p.add_address(addr)
+        return kind
 
     def new_circuit(self, cid, ip, port, e2e):
         c = self.T.Circuit(cid, 1, self.T.CIRCUIT_TYPE_RP_DOWNLOADER if e2e else self.T.CIRCUIT_TYPE_DATA)
@@ -260,6 +300,7 @@ class Env:
         for kp in self.added_peers:
             self.node.network.remove_peer(kp)
         self.added_peers.clear()
+        self.creator_key.clear()
         self.sent.clear()
         self.ov.endpoint = self.plain_ep
         for g in self.gates:
@@ -422,7 +463,9 @@ def gen_packets(ctx: Ctx, pfx: bytes, wide: bool):
 
 async def open_socket_for_gate(env: Env, cid=900):
     """open a socket through the real path: on_data from the hop's own address, then both transports"""
-    es = env.join(cid, "10.9.9.9", 7000)
+    es = await env.join(cid, "10.9.9.9", 7000)
+    if es is None:
+        raise InfraError("on_create did not create an exit socket for the gate tests")
     env.set_flags([env.F_BT, env.F_IPV8])
     env.ov.on_data(("10.9.9.9", 7000), data_packet(env.pfx, cid, ("4", "1.1.1.1", 53), b"d1:ae"), None)
     await env.drain()
@@ -663,8 +706,12 @@ def gen_history(ctx: Ctx, env: Env, n_events: int):
     if style == "burst":
         flags = [f for f in flags if f not in (env.F_BT, env.F_IPV8)] + rng.choice([[env.F_BT], [env.F_BT, env.F_IPV8]])
         n_events = max(n_events, 30)
+    prefix = []
+    if not flags:
+        # on_create ignores CREATEs while no peer flag is configured: the sockets are created under RELAY, then the flags are cleared
+        flags, prefix = [env.F_RELAY], [{"ev": "flags", "flags": []}]
     return {"flags": flags, "socks": socks, "circs": circs, "tunnel_ep": rng.random() < 0.5, "style": style, "n": n_events,
-            "events": []}
+            "prefix_events": prefix, "events": []}
 
 
 def draw_event(rng, env: Env, h, pend_gates, pend_dns, open_fams):
@@ -679,13 +726,22 @@ def draw_event(rng, env: Env, h, pend_gates, pend_dns, open_fams):
     if open_fams:
         choices += ["outside"] * 5
     if not burst:
-        choices += ["join"]
+        choices += ["join", "peer-moves"]
     k = rng.choice(choices)
     if k == "join":
         ip, port = rng.choice(HOP_IPS), rng.choice([5000, 6000])
         used = {x["cid"] for x in socks} | {c["cid"] for c in h["circs"]}
         cid = next(c for c in range(60017, 90000, 17) if c not in used)                # a circuit id not in use
+        if rng.random() < 0.25:
+            cid = rng.choice(sorted(used))          # a CREATE for an id already in use: on_create must ignore it
         return {"ev": "join", "cid": cid, "ip": ip, "port": port, "known": draw_known(rng, ip, port)}
+    if k == "peer-moves":
+        # a signed message of the circuit creator's key arrives from another address: the Network's Peer object for that key
+        # learns it (lazy_wrapper -> Peer.add_address); the exit socket's hop must not follow
+        s = rng.choice(socks)
+        ip = rng.choice(["fd00::99", FOREIGN_IPS[1], near_misses(s["ip"])[0][1]])
+        s.setdefault("moved", []).append(ip)
+        return {"ev": "peer-moves", "cid": s["cid"], "ip": ip, "port": rng.choice([1, s["port"]])}
     if k == "flags":
         return {"ev": "flags", "flags": [f for f in (env.F_RELAY, env.F_BT, env.F_IPV8, env.F_SPEED) if rng.random() < 0.5]}
     if k == "open":
@@ -731,7 +787,7 @@ def draw_event(rng, env: Env, h, pend_gates, pend_dns, open_fams):
         cid = c["cid"] if rng.random() < 0.8 else cid
         src = (c["ip"], rng.choice([c["port"], c["port"], 999]))
     else:
-        kn = [k for k in (s.get("known") or []) if k[0] != s["ip"]]
+        kn = [k for k in (s.get("known") or []) + [[m, s["port"]] for m in s.get("moved", [])] if k[0] != s["ip"]]
         if kn and rng.random() < 0.5:
             # the address the Network knows for the creator's key, which is NOT where the CREATE came from
             src = (kn[0][0], rng.choice([kn[0][1], s["port"]]))
@@ -793,9 +849,17 @@ async def run_history(ctx: Ctx, env: Env, h, fixed_events=None):
     dns_of = {}         # cid -> list of dns records in flight (model's `pending`)
     requested = {}      # cid -> (data, host, port) that some cell / resolution asked to be sent
 
-    def do_join(s):
-        """the real join_circuit + the model's `join` line; returns (line, canonical implementation reply)"""
-        es = env.join(s["cid"], s["ip"], s["port"], s.get("known"))
+    async def do_join(s):
+        """the real on_create/join_circuit + the model's `join` line; returns (line, canonical implementation reply)"""
+        es = await env.join(s["cid"], s["ip"], s["port"], s.get("known"))
+        await env.drain()
+        if es is None:          # refused by on_create's guards (no peer flags, circuit id in use): state must be unchanged
+            ctx.count("B:join:refused")
+            env.last_join_created = False
+            old = sockobj.get(s["cid"])
+            return (f"join {hx(s['ip'].encode())} {s['port']} {s['cid']}",
+                    "- | nosock" if old is None else "- | en=%d t4=%d t6=%d q=%d p=%d" % (
+                        old.enabled, bool(old.transport_ipv4), bool(old.transport_ipv6), len(old.queue), len(dns_of.get(s["cid"], []))))
         h["socks"] = [x for x in h["socks"] if x["cid"] != s["cid"]] + [s]
         hopip[s["cid"]] = s["ip"]
         dns_of[s["cid"]], requested[s["cid"]] = [], set()
@@ -805,24 +869,28 @@ async def run_history(ctx: Ctx, env: Env, h, fixed_events=None):
                                            "known-at-same-ip-other-port" if kn[0][0] == s["ip"] else
                                            "known-at-other-family" if (":" in kn[0][0]) != (":" in s["ip"]) else
                                            "known-at-other-ip"))
-        if es is None:
-            return f"join {hx(s['ip'].encode())} {s['port']} {s['cid']}", "- | nosock"
         sockobj[s["cid"]] = es
+        env.last_join_created = True
         return (f"join {hx(s['ip'].encode())} {s['port']} {s['cid']}",
                 "- | en=%d t4=%d t6=%d q=%d p=0" % (es.enabled, bool(es.transport_ipv4), bool(es.transport_ipv6), len(es.queue)))
     for s0 in initial:
-        ln, rp = do_join(s0)
+        ln, rp = await do_join(s0)
         lines.append(ln)
         impl.append(rp)
     events = []
     stats = {"emit": 0, "tunnel": 0, "dropped": 0}
-    n = len(fixed_events) if fixed_events is not None else h["n"]
+    prefix = h.get("prefix_events", []) if fixed_events is None else []
+    n = len(fixed_events) if fixed_events is not None else h["n"] + len(prefix)
     for i in range(n):
         pend_gates = [(g["owner"], g["fam"]) for g in env.gates if not g["fut"].done() and g["owner"] is not None]
         pend_dns = [(cid, j) for cid, lst in dns_of.items() for j in range(len(lst))]
         open_fams = [(cid, fam) for cid, es in sockobj.items() for fam, tr in ((4, es.transport_ipv4), (6, es.transport_ipv6)) if tr]
         if fixed_events is not None:
             e = fixed_events[i]
+        elif i < len(prefix):
+            e = prefix[i]
+        elif not h["socks"]:
+            e = {"ev": "flags", "flags": list(cur_flags)}        # nothing to act on (every CREATE was refused)
         else:
             e = draw_event(rng, env, h, pend_gates, pend_dns, open_fams)
         events.append(e)
@@ -846,10 +914,10 @@ async def run_history(ctx: Ctx, env: Env, h, fixed_events=None):
             line = f"data {hx(e['src'][0].encode())} {e['src'][1]} {cid} {dest[0]} {hx(dest[1].encode())} {dest[2]} {hx(p)}"
             ctx.count("B:dest:" + ("null" if (dest[1], dest[2]) == NULL else {"4": "ipv4", "6": "ipv6", "d": "domain"}[dest[0]]))
             ctx.count("B:payload:" + e.get("pkind", "?"))
-            if cid in requested and dest[0] != "d":
-                requested[cid].add((p, dest[1], dest[2]))
+            pending_request = (p, dest[1], dest[2]) if dest[0] != "d" else None
             hop = hopip.get(cid)
-            kn_ips = [k[0] for x in h["socks"] if x["cid"] == cid for k in (x.get("known") or [])]
+            kn_ips = [k[0] for x in h["socks"] if x["cid"] == cid for k in (x.get("known") or [])] + \
+                     [m for x in h["socks"] if x["cid"] == cid for m in x.get("moved", [])]
             rel = "hop-ip" if e["src"][0] == hop else "no-such-socket" if hop is None else \
                 "network-address-of-creator-key" if e["src"][0] in kn_ips else \
                 dict((t, r) for r, t in near_misses(hop)).get(e["src"][0], "foreign:unrelated")
@@ -878,10 +946,7 @@ async def run_history(ctx: Ctx, env: Env, h, fixed_events=None):
                                             (ip, 0, 0, 0) if f == "6" else (ip, 0)) for f, ip in infos])
             minfos = [] if infos == "fail" else infos
             if e.get("_rec") and e["_rec"][0] is not None and cid in requested:
-                for _f, ip in minfos:
-                    for prt in range(0, 1):
-                        pass
-                requested[cid] |= {(e["_rec"][0], ip, "anyport") for _f, ip in minfos}
+                requested[cid] |= {(e["_rec"][0], ip, resolved_port) for _f, ip in minfos}
             e.pop("_rec", None)
             ctx.count("B:resolution:" + ("fail" if infos == "fail" else "empty" if not infos else
                                          "+".join(f for f, _ in infos)))
@@ -896,8 +961,11 @@ async def run_history(ctx: Ctx, env: Env, h, fixed_events=None):
             except Exception as ex:
                 env.log.append(("raised", type(ex).__name__))
             line = f"outside {cid} {e['fam']} {hx(e['host'].encode())} {e['port']} {hx(p)}"
+        elif e["ev"] == "peer-moves":
+            ctx.count("B:peer-moves:" + env.peer_moves(cid, e["ip"], e["port"]))
+            line = None
         elif e["ev"] == "join":
-            line, join_reply = do_join({"cid": cid, "ip": e["ip"], "port": e["port"], "known": e.get("known")})
+            line, join_reply = await do_join({"cid": cid, "ip": e["ip"], "port": e["port"], "known": e.get("known")})
             enabled_before.setdefault(cid, False)
             qlen_before.setdefault(cid, 0)
         else:
@@ -905,6 +973,8 @@ async def run_history(ctx: Ctx, env: Env, h, fixed_events=None):
         await env.drain()
         if e["ev"] == "flags":
             cur_flags = list(e["flags"])
+        if e["ev"] == "data" and pending_request is not None and cid in requested and sockobj[cid].enabled:
+            requested[cid].add(pending_request)      # only a cell that the (now open) socket accepted asks for an emission
         # attribute new gates / resolutions to the socket the event was about
         for g in env.gates[n_gates:]:
             if g["owner"] is None:
@@ -927,20 +997,19 @@ async def run_history(ctx: Ctx, env: Env, h, fixed_events=None):
                     ctx.oracle_fail("TunnelExitSocket.sendto:forbidden-emission",
                                     f"event {i} ({e['ev']}): packet {data[:32].hex()} (BT-shaped={spec_bt(data)}, IPv8-shaped={spec_ipv8(data)}) "
                                     f"left through transport.sendto while peer_flags={cur_flags}",
-                                    {"part": "B", "history": {**h, "socks": initial, "events": events}})
+                                    {"part": "B", "history": {**h, "socks": initial, "events": events, "community": env.community}})
                 if tuple(addr[:2]) == NULL:
                     ctx.oracle_fail("TunnelExitSocket.sendto:null-destination",
                                     f"event {i} ({e['ev']}): transport.sendto towards 0.0.0.0:0",
-                                    {"part": "B", "history": {**h, "socks": initial, "events": events}})
-                if owner in requested and (data, addr[0], addr[1]) not in requested[owner] \
-                        and (data, addr[0], "anyport") not in requested[owner]:
+                                    {"part": "B", "history": {**h, "socks": initial, "events": events, "community": env.community}})
+                if owner in requested and (data, addr[0], addr[1]) not in requested[owner]:
                     ctx.oracle_fail("TunnelExitSocket.sendto:emission-to-unrequested-destination",
                                     f"event {i}: socket {owner} sent {data[:16].hex()} to {addr}, which no cell or resolution asked for",
-                                    {"part": "B", "history": {**h, "socks": initial, "events": events}})
+                                    {"part": "B", "history": {**h, "socks": initial, "events": events, "community": env.community}})
                 if owner not in sockobj or not sockobj[owner].enabled:
                     ctx.oracle_fail("TunnelExitSocket.sendto:emission-from-unopened-socket",
                                     f"event {i}: emission from a socket that was never enabled",
-                                    {"part": "B", "history": {**h, "socks": initial, "events": events}})
+                                    {"part": "B", "history": {**h, "socks": initial, "events": events, "community": env.community}})
             elif ent[0] == "tunnel":
                 stats["tunnel"] += 1
                 data = ent[5]
@@ -949,33 +1018,33 @@ async def run_history(ctx: Ctx, env: Env, h, fixed_events=None):
                         or tuple(ent[3]) != NULL or tuple(ent[4][:2]) != (e.get("host"), e.get("port")):
                     ctx.oracle_fail("TunnelExitSocket.tunnel_data:wrong-circuit-or-target",
                                     f"event {i}: outside datagram for socket {cid} was sent back as send_data{ent[1:5]}",
-                                    {"part": "B", "history": {**h, "socks": initial, "events": events}})
+                                    {"part": "B", "history": {**h, "socks": initial, "events": events, "community": env.community}})
                 if not spec_allowed(exit_bt, exit_ipv8, env.pfx, data):
                     ctx.oracle_fail("TunnelExitSocket.datagram_received:forbidden-inbound",
                                     f"event {i}: outside datagram {data[:32].hex()} (BT-shaped={spec_bt(data)}, IPv8-shaped={spec_ipv8(data)}) "
                                     f"was sent back into the tunnel while peer_flags={cur_flags}",
-                                    {"part": "B", "history": {**h, "socks": initial, "events": events}})
+                                    {"part": "B", "history": {**h, "socks": initial, "events": events, "community": env.community}})
         for ent in new:
             if ent[0] == "handler" and ent[1] in env.circuit_cell_ids:
                 ctx.oracle_fail("TunnelCommunity.on_data:circuit-cell-handler-run-from-data-payload",
                                 f"event {i}: the payload of a DATA cell from {e.get('src')} was dispatched to the cell handler of message id "
                                 f"{ent[1]} with source address {tuple(ent[2])}, an address taken from the payload's org_address: no "
                                 f"datagram came from there (a pong / created / ... would be sent to it)",
-                                {"part": "B", "history": {**h, "socks": initial, "events": events}})
+                                {"part": "B", "history": {**h, "socks": initial, "events": events, "community": env.community}})
         if e["ev"] == "data":
             pl = bytes.fromhex(e["data"])
             if any(x[0] == "resolve" for x in new) and not spec_allowed(exit_bt, exit_ipv8, env.pfx, pl):
                 ctx.oracle_fail("TunnelExitSocket.sendto:dns-lookup-for-forbidden-packet",
                                 f"event {i}: a DNS lookup for {e['dest'][1]!r} was started for packet {pl[:16].hex()} "
                                 f"(BT-shaped={spec_bt(pl)}, IPv8-shaped={spec_ipv8(pl)}) while peer_flags={cur_flags}",
-                                {"part": "B", "history": {**h, "socks": initial, "events": events}})
+                                {"part": "B", "history": {**h, "socks": initial, "events": events, "community": env.community}})
             es0 = sockobj.get(cid)
             if es0 is not None and not enabled_before[cid] and not es0.enabled and \
                     ([x for x in new if x[0] not in ("loc", "handler")] or len(es0.queue) != qlen_before[cid]):
                 ctx.oracle_fail("TunnelCommunity.exit_data:closed-socket-accepted-data",
                                 f"event {i}: cell from {e['src']} did not open socket {cid} (hop {hopip.get(cid)}) but was queued / "
                                 f"caused {[x[0] for x in new]}",
-                                {"part": "B", "history": {**h, "socks": initial, "events": events}})
+                                {"part": "B", "history": {**h, "socks": initial, "events": events, "community": env.community}})
         opened = [c for c, es in sockobj.items() if es.enabled and not enabled_before[c]]
         opened += [g["owner"] for g in env.gates[n_gates:] if g["fam"] == 4]
         for c in set(opened):
@@ -985,7 +1054,7 @@ async def run_history(ctx: Ctx, env: Env, h, fixed_events=None):
             if not ok:
                 ctx.oracle_fail("TunnelCommunity.exit_data:socket-opened-by-foreign-ip",
                                 f"event {i} ({e['ev']} from {e.get('src')}): exit socket {c} (previous hop {hopip.get(c)}) started opening its outside transports",
-                                {"part": "B", "history": {**h, "socks": initial, "events": events}})
+                                {"part": "B", "history": {**h, "socks": initial, "events": events, "community": env.community}})
             ctx.count("B:socket-opened")
         if not new and e["ev"] in ("data", "outside"):
             stats["dropped"] += 1
@@ -1033,13 +1102,15 @@ async def run_history(ctx: Ctx, env: Env, h, fixed_events=None):
             ctx.count("B:branch:open%d:%s" % (e["fam"], "flush-emitted" if "emit" in kinds else
                                               "flush-dropped-all" if e["fam"] == 6 and qlen_before.get(cid) else "nothing-queued"))
         # ---- canonical reply, same shape as the driver's ----
+        if e["ev"] == "peer-moves":
+            continue                      # not an event of the model: hop addresses are immutable there
         if e["ev"] == "flags":
             rep = "ok"
         elif e["ev"] == "join":
             rep = join_reply
-            if sockobj.get(cid) is not None and (sockobj[cid].enabled or sockobj[cid].transport_ipv4):
+            if env.last_join_created and (sockobj[cid].enabled or sockobj[cid].transport_ipv4):
                 ctx.oracle_fail("TunnelCommunity.join_circuit:socket-born-open", f"event {i}: exit socket {cid} is open right after the CREATE",
-                                {"part": "B", "history": {**h, "socks": initial, "events": events}})
+                                {"part": "B", "history": {**h, "socks": initial, "events": events, "community": env.community}})
         else:
             outs = ";".join(canon(x) for x in new) or "-"
             es = sockobj.get(cid)
@@ -1084,12 +1155,12 @@ def run_paths(ctx: Ctx, env: Env, n_hist: int, use_model: bool):
     env.loop.run_until_complete(env.clear())
 
 
-def run_opening_grid(ctx: Ctx, env: Env, use_model: bool):
+def run_opening_grid(ctx: Ctx, env: Env, use_model: bool, nested_only: bool = False):
     """exhaustive small scope for "who may open the socket": every hop address x (its own address on two ports, every
     near-miss, unrelated addresses) as the source of the FIRST data cell, then both transports open."""
     all_lines, all_impl, owners = [], [], []
     payload = b"d1:ad2:id20:abcdefghij0123456789e"
-    for hop in HOP_IPS:
+    for hop in ([] if nested_only else HOP_IPS):
         srcs = [("hop-ip", hop, 5000), ("hop-ip:other-port", hop, 999)]
         srcs += [(rel, ip, port) for rel, ip in near_misses(hop) for port in (5000,)]
         srcs += [("foreign:unrelated", ip, 5000) for ip in FOREIGN_IPS[:2]]
@@ -1109,7 +1180,7 @@ def run_opening_grid(ctx: Ctx, env: Env, use_model: bool):
             all_impl += impl
             owners += [h] * len(lines)
     # the creator's key is already a verified peer of the Network under some address; the CREATE comes from `hop`
-    for hop in HOP_IPS[:4]:
+    for hop in ([] if nested_only else HOP_IPS[:4]):
         for cls, known in (("same", [[hop, 5000]]), ("other-ip", [[FOREIGN_IPS[0], 5000]]), ("other-port", [[hop, 7]]),
                            ("other-family", [["fd00::77" if ":" not in hop else "10.7.7.7", 5000]]),
                            ("near-miss", [[near_misses(hop)[0][1], 5000]])):
@@ -1128,7 +1199,7 @@ def run_opening_grid(ctx: Ctx, env: Env, use_model: bool):
     for hop in HOP_IPS[:3]:
         for oip in (hop, FOREIGN_IPS[0]):
             for e2e in (False, True):
-                for mid in (6, 2, 3, 4, 19, env.EXIT_MSG):
+                for mid in sorted({6, 2, 3, 4, 19, env.EXIT_MSG} | (set(env.declared_exit_ids) if nested_only else set())):
                     if e2e and mid != 6:
                         continue
                     h = {"flags": [env.F_RELAY, env.F_BT], "socks": [{"cid": 77, "ip": hop, "port": 5000}],
@@ -1139,7 +1210,7 @@ def run_opening_grid(ctx: Ctx, env: Env, use_model: bool):
                             "origin": ["6" if ":" in oip else "4", oip, 5000], "data": inner.hex(),
                             "pkind": "nested-exit-message" if mid == env.EXIT_MSG else "nested-circuit-cell"}]
                     lines, impl, stats = env.loop.run_until_complete(run_history(ctx, env, h, fixed_events=evs))
-                    ctx.count(f"G:nested-message-id-{mid}-on-own-circuit" + (":e2e" if e2e else ""))
+                    ctx.count(f"G:{env.community}:nested-message-id-{mid}-on-own-circuit" + (":e2e" if e2e else ""))
                     ctx.case(("G", "nested", mid, hop, oip, e2e), nontrivial=True, n=len(lines) - 1)
                     all_lines += lines
                     all_impl += impl
@@ -1152,7 +1223,7 @@ def run_opening_grid(ctx: Ctx, env: Env, use_model: bool):
                         "origin": ["6" if ":" in oip else "4", oip, 5000], "data": inner.hex(), "pkind": "nested-data"},
                        {"ev": "open", "cid": 77, "fam": 4}, {"ev": "open", "cid": 77, "fam": 6}]
                 lines, impl, stats = env.loop.run_until_complete(run_history(ctx, env, h, fixed_events=evs))
-                ctx.count("G:nested-data-on-own-circuit:" + ("origin=socket-hop" if oip == hop else "origin=foreign")
+                ctx.count(f"G:{env.community}:nested-data-on-own-circuit:" + ("origin=socket-hop" if oip == hop else "origin=foreign")
                           + (":e2e" if e2e else ""))
                 ctx.case(("G", "nested", hop, oip, e2e), nontrivial=True, n=len(lines) - 1)
                 all_lines += lines
@@ -1170,11 +1241,50 @@ def run_opening_grid(ctx: Ctx, env: Env, use_model: bool):
 
 
 # ---- entry points --------------------------------------------------------------------------------------------------------
+THEOREM_KINDS = {
+    "property clause (model, all histories/states)": ["is_allowed_spec", "emit_policy", "inbound_policy", "no_null_dest", "resolve_policy",
+                                                      "enabled_flip_cause", "unopened_socket_untouched", "step_policy", "no_reentry",
+                                                      "redispatch_only_exit_messages", "enable_only_from_prev_hop",
+                                                      "emit_requires_prev_hop_data"],
+    "soundness of a syntactic check, all programs": ["safeSock_sound", "safeExit_sound"],
+    "decided on regenerated closed terms": ["sendto_prog_safe", "datagram_received_prog_safe", "exit_data_prog_safe", "on_data_prog_safe",
+                                            "data_is_not_an_exit_message"],
+    "change detector (Spec transcribes DataChecker)": ["could_be_utp_spec", "could_be_udp_tracker_spec", "could_be_dht_spec",
+                                                       "could_be_bt_spec", "could_be_ipv8_spec"],
+    "corollary / frame property of a definition / not in the property text": ["other_flags_irrelevant", "gate_iff", "queued_rechecked",
+                                                                              "queue_bounded", "hop_is_create_source"],
+}
+
+
+def check_hidden_community(ctx: Ctx):
+    ctx.extra["theorem_kinds"] = THEOREM_KINDS
+    """the community class that is deployed with hidden services: its run-time exit_msg_ids must be the list the translator
+    extracted from the source (theorem data_is_not_an_exit_message is about that list), and the nested-cell grid runs on it"""
+    env = Env("hidden")
+    try:
+        declared = sorted(i for _c, i, _f in ctx.extra.get("translator_paths", {}).get("exit_messages_declared", []))
+        runtime = sorted(set(env.declared_exit_ids))
+        ctx.extra["exit_msg_ids"] = {"declared_in_source": declared, "HiddenTunnelCommunity_at_run_time": runtime}
+        if "translator_paths" in ctx.extra and runtime != declared:
+            ctx.disagree(f"HiddenTunnelCommunity().exit_msg_ids = {runtime} but the source declares from_exit=True for {declared}",
+                         {"part": "exit-ids", "runtime": runtime, "declared": declared})
+        run_opening_grid(ctx, env, ctx.model_ok, nested_only=True)
+    finally:
+        env.close()
+
+
 def run(ctx: Ctx):
-    env = Env()
+    if ctx.replay_input is None:
+        check_hidden_community(ctx)
+    rec = ctx.replay_input or {}
+    env = Env(rec.get("replay", rec).get("history", {}).get("community", "base"))
     try:
         if ctx.replay_input is not None:
             return replay(ctx, env, ctx.replay_input)
+        base_decl = sorted(i for _c, i, f in ctx.extra.get("translator_paths", {}).get("exit_messages_declared", []) if f == "community.py")
+        if "translator_paths" in ctx.extra and sorted(env.declared_exit_ids) != base_decl:
+            ctx.disagree(f"TunnelCommunity().exit_msg_ids = {sorted(env.declared_exit_ids)} but community.py declares {base_decl}",
+                         {"part": "exit-ids", "runtime": sorted(env.declared_exit_ids), "declared": base_decl})
         run_opening_grid(ctx, env, ctx.model_ok)
         run_gate(ctx, env, ctx.model_ok, wide=ctx.thorough())
         run_paths(ctx, env, ctx.scale(400, 20000), ctx.model_ok)
@@ -1183,11 +1293,13 @@ def run(ctx: Ctx):
 
 
 def search(ctx: Ctx, reason: str):
+    # kept small: a red quick run must stay well under ~3 minutes
+    check_hidden_community(ctx)
     env = Env()
     try:
         run_opening_grid(ctx, env, False)
-        run_gate(ctx, env, False, wide=True)
-        run_paths(ctx, env, 1500, False)
+        run_gate(ctx, env, False, wide=False)
+        run_paths(ctx, env, 600, False)
     finally:
         env.close()
 
